@@ -877,6 +877,38 @@ class Item:
         self._log('R28', 'collect of %s into VecDeque `%s` -> explicit loop over next() with push_back' % ('a mapped iterator' if mm else 'an iterator', name))
         return self
 
+    def r30_str_match(self, eq_fn='str_eq'):
+        """R30: `match E { "LIT1" => A1, "LIT2" => A2, .., _ => D }` (string-literal patterns, tested in order; D a block or an
+        expression) -> `if EQ(E, "LIT1") { A1 } else if EQ(E, "LIT2") { A2 } .. else D`.  Verus takes no string-literal patterns; the
+        chain of equality tests in source order is what the match means."""
+        self._no_splice_yet()
+        m = re.search(r'\bmatch ([^\n{]+?) \{\n(?=\s*"[^"\n]*" =>)', self.text)
+        if not m:
+            raise ExtractError('%s: R30 finds no match over string literals' % self.name)
+        scrut = m.group(1).strip()
+        o = self.text.index('{', m.start())
+        e = match_brace(self.text, o)
+        body = self.text[o + 1:e - 1]
+        arms, pos = [], 0
+        while True:
+            ma = re.compile(r'\s*"((?:[^"\\]|\\.)*)" => ([^\n]*?),\n').match(body, pos)
+            if not ma:
+                break
+            arms.append((ma.group(1), ma.group(2)))
+            pos = ma.end()
+        md = re.compile(r'\s*_ => ').match(body, pos)
+        if not arms or not md:
+            raise ExtractError('%s: R30: the match over string literals has no `_ =>` arm after its literal arms' % self.name)
+        default = body[md.end():].strip()
+        if default.endswith(','):
+            default = default[:-1].rstrip()
+        if not default.startswith('{'):
+            default = '{ ' + default + ' }'
+        chain = ' else '.join('if %s(%s, "%s") { %s }' % (eq_fn, scrut, lit, a) for lit, a in arms) + ' else ' + default
+        self.text = self.text[:m.start()] + chain + self.text[e:]
+        self._log('R30', 'match over %d string literal(s) on `%s` -> chain of %s tests in source order' % (len(arms), scrut, eq_fn))
+        return self
+
     def r21(self, fn_name, ordinal):
         """`for (OFF, C) in E.char_indices() { B }` -> counted loop over the characters (a Vec<char> from the str_chars_vec stub) with a
         running byte offset: OFF is the sum of len_utf8 of the characters before C.  The counters are advanced at the top of the body,
